@@ -16,16 +16,16 @@ Seen(e) == e.vactive = e.active /\ e.vcby = e.cby
 
 TInit == /\ t \in 1 .. NT /\ l = 2
          /\ LET e == Traces[t][1] IN
-              /\ lay = e.lay /\ active = e.active /\ cby = e.cby /\ foreign = e.foreign
+              /\ lay = e.lay /\ exc = e.exc /\ active = e.active /\ cby = e.cby /\ foreign = e.foreign
               /\ active = [c \in Ctls |-> FALSE] /\ cby = [o \in Outs |-> "self"] /\ foreign /\ Seen(e)
 
 TStep ==
   /\ l <= Len(Traces[t])
   /\ l' = l + 1 /\ t' = t
   /\ active' = Ev.active /\ cby' = Ev.cby /\ foreign' = Ev.foreign
-  /\ \/ Ev.ev = "take" /\ TakeOver(Ev.c)
+  /\ \/ Ev.ev = "take" /\ TakeOver(Ev.c, Ev.f)
      \/ Ev.ev = "upd" /\ UpdateTarget(Ev.c)
-     \/ Ev.ev = "self" /\ SelfControl(Ev.o)
+     \/ Ev.ev = "self" /\ SelfControl(Ev.o, Ev.f)
   /\ Seen(Ev)
   /\ AtMostOne' /\ NamesTheActive' /\ NotBuiltInactive' /\ ForeignIntact'
 
